@@ -22,7 +22,9 @@
        (C02_vm_runs_loops, C02_ref_runs_loops): one scope per element, the loop frame reused and reset by the pass that
        goes round, the accumulator of each kind, findIf's early stop, exitWith in the body ending the whole loop.
        Lazy && / and / || / or with a code block on the right are constructors of the same relation (ZLazySkip, ZLazyEnter).
-       NOT covered by the simulation: while and for, switch,
+       The for loop (from / to / step, the loop variable read back from the frame) is covered too (C02_vm_runs_for,
+       C02_ref_runs_for).
+       NOT covered by the simulation: while, switch,
        exitWith inside an operand, breakOut, try / catch / throw, waitUntil, nil operands - for these the
        per-construct theorems below and the program-level differential are the evidence;
      - the compiler emits the post-order of the source (code blocks, binary operators, arrays);
@@ -359,7 +361,7 @@ Qed.
 Theorem C02_ref_runs_loops : forall k s arr i body acc acc' s', ziter k s arr i body acc acc' s' ->
   exists f0, forall f, f0 <= f -> forall kk, length arr < kk ->
     iterate_f f kk s arr i body (kwith k) acc (kstep k) = (ONormal acc', s').
-Proof. exact (proj2 (proj2 (proj2 (proj2 ref_runs_z)))). Qed.
+Proof. exact (proj1 (proj2 (proj2 (proj2 (proj2 ref_runs_z))))). Qed.
 Print Assumptions C02_ref_runs_loops.
 Theorem C02_vm_runs_loops : forall k s x rest0 i body acc acc' s', ziter k s (x :: rest0) i body acc acc' s' ->
   forall r c f fc frest below allarr b,
@@ -368,7 +370,7 @@ Theorem C02_vm_runs_loops : forall k s x rest0 i body acc acc' s', ziter k s (x 
     skipn i allarr = x :: rest0 -> leaf_first body -> f_ns f = f_ns fc -> f_base fc <= length below ->
     exists r' c' fc' rest', Steps r r' /\ r' <> r /\ Mach s' r' c' fc' rest' /\ c_values c' = cv acc' :: below /\
       kept fc fc' /\ Forall2 kept frest rest'.
-Proof. intros k s x rest0 i body acc acc' s' H. exact (proj2 (proj2 (proj2 (proj2 vm_runs_z))) k s (x :: rest0) i body acc acc' s' H). Qed.
+Proof. intros k s x rest0 i body acc acc' s' H. exact (proj1 (proj2 (proj2 (proj2 (proj2 vm_runs_z)))) k s (x :: rest0) i body acc acc' s' H). Qed.
 Print Assumptions C02_vm_runs_loops.
 (* derivations: s = 0; { s = s + _x; if (_x > 1) exitWith { s } } forEach [1, 2, 3]  - two rounds, the second leaves the loop
    with 3;  [1, 5, 2] findIf { _x > 3 }  - stops at index 1;  { _x > 1 } count [1, 2, 3] = 2 *)
@@ -416,5 +418,44 @@ Proof.
     - eapply ZIterCons; [eapply ZBLast; eapply ZSExprV; eapply ZPure; eapply PBin; [eapply PVarL; reflexivity|eapply PNum|reflexivity] | reflexivity | eexists; reflexivity |].
       eapply ZIterCons; [eapply ZBLast; eapply ZSExprV; eapply ZPure; eapply PBin; [eapply PVarL; reflexivity|eapply PNum|reflexivity] | reflexivity | eexists; reflexivity |].
       eapply ZIterCons; [eapply ZBLast; eapply ZSExprV; eapply ZPure; eapply PBin; [eapply PVarL; reflexivity|eapply PNum|reflexivity] | reflexivity | eexists; reflexivity | eapply ZIterNil]. }
+  reflexivity.
+Qed.
+
+(* ---- for "_i" from a to b step c do {..} (same file): one scope per round holding the loop variable, which the machine reads
+   back from the frame when the body has run out (zfor var to st s x first body acc s' = the rounds from the value x on) *)
+Theorem C02_ref_runs_for : forall var to st s x first body acc s', zfor var to st s x first body acc s' ->
+  exists f0 k0, forall f, f0 <= f -> forall k, k0 <= k -> for_loop_f f var to st body k s x first = (ONormal acc, s').
+Proof. exact (proj2 (proj2 (proj2 (proj2 (proj2 ref_runs_z))))). Qed.
+Print Assumptions C02_ref_runs_for.
+Theorem C02_vm_runs_for : forall var to st s x first body acc s', zfor var to st s x first body acc s' ->
+  forall r c f fc frest below,
+    AtM (enter s [(lower var, RNum x)]) (if first then RNil else RNone) r c f (fc :: frest) below ->
+    f_code f = compile_block body -> f_pos f = 0 -> f_exit f = Some (BFor var to st) -> f_die f = false ->
+    leaf_first body -> f_ns f = f_ns fc -> f_base fc <= length below ->
+    exists r' c' fc' rest', Steps r r' /\ r' <> r /\ Mach s' r' c' fc' rest' /\ c_values c' = cv acc :: below /\
+      kept fc fc' /\ Forall2 kept frest rest'.
+Proof. exact (proj2 (proj2 (proj2 (proj2 (proj2 vm_runs_z))))). Qed.
+Print Assumptions C02_vm_runs_for.
+(* a derivation: t = 0; for "_i" from 1 to 3 do { t = t + _i }  leaves t = 6 *)
+Definition ex_for : expr :=
+  EBinary "do" (EBinary "to" (EBinary "from" (EUnary "for" (EStr "_i")) (ENum 1)) (ENum 3))
+               (ECode [SAssign "t" (EBinary "+" (EVar "t") (EVar "_i"))]).
+Example for_inhabited : exists s0 v s', glob_of s0 "t" = Some (RNum 0) /\ zev s0 ex_for v s' /\ glob_of s' "t" = Some (RNum 6).
+Proof.
+  exists (rns_set init_state default_ns "t" (RNum 0)). eexists _, _. split; [reflexivity|]. split.
+  { eapply ZForLoop; [reflexivity| |eapply ZCode| | |].
+    - eapply ZForSet; [| |eapply ZPure; eapply PNum].
+      2: { eapply ZForSet; [| |eapply ZPure; eapply PNum].
+           2: { eapply ZForVar; [reflexivity|intros ? ?; discriminate|eapply ZPure; eapply PStr]. }
+           reflexivity. }
+      reflexivity.
+    - reflexivity.
+    - eexists _, _. split; [reflexivity|]. right. eexists. reflexivity.
+    - eapply ZForRound; [eapply ZBLast; eapply ZSAssign; [discriminate|eapply ZPure; eapply PBin; [eapply PVarG; reflexivity|eapply PVarL; reflexivity|reflexivity]|split; discriminate]
+                        |reflexivity|reflexivity|].
+      eapply ZForRound; [eapply ZBLast; eapply ZSAssign; [discriminate|eapply ZPure; eapply PBin; [eapply PVarG; reflexivity|eapply PVarL; reflexivity|reflexivity]|split; discriminate]
+                        |reflexivity|reflexivity|].
+      eapply ZForLast; [eapply ZBLast; eapply ZSAssign; [discriminate|eapply ZPure; eapply PBin; [eapply PVarG; reflexivity|eapply PVarL; reflexivity|reflexivity]|split; discriminate]
+                       |reflexivity|reflexivity]. }
   reflexivity.
 Qed.
